@@ -27,8 +27,25 @@ PARTS = {
 
 
 def build(bdir):
+    """one driver for all kernels; if it does not build (a routine no longer exists under its name, e.g. after a
+    re-implementation that dropped it), one driver per kernel: the kernels that still build are checked, the others
+    are reported as absent (nothing to decide for a routine that is not there)"""
     vlib.stage_sources(bdir)
-    return vlib.build_prog(bdir, "kernel_driver", os.path.join(vlib.HARNESS, "kernel_driver.c"), [])
+    src = os.path.join(vlib.HARNESS, "kernel_driver.c")
+    try:
+        prog = vlib.build_prog(bdir, "kernel_driver", src, [])
+        return {kid: prog for kid in range(len(KERNELS))}, []
+    except vlib.Infra:
+        progs, absent = {}, []
+        for kid in range(len(KERNELS)):
+            try:
+                progs[kid] = vlib.build_prog(bdir, "kernel_driver_%d" % kid, src, [], extra=("-DKD_KID=%d" % kid,))
+            except vlib.Infra as e:
+                absent.append(KERNELS[kid])
+                vlib.log("note: kernel %s does not build in this tree (absent or different signature): not checked" % KERNELS[kid])
+        if not progs:
+            raise
+        return progs, absent
 
 
 def run_driver(prog, tierc, kid, parts, part, trace, only=None):
@@ -115,8 +132,9 @@ def run(pid, tier):
     bdir = vlib.scratch(pid)
     verdict = vlib.Verdict(pid)
     try:
-        prog = build(bdir)
-        jobs = [(pid, prog, bdir, tierc, kid, parts, part) for kid, parts in sorted(PARTS[tier].items()) for part in range(parts)]
+        progs, absent = build(bdir)
+        jobs = [(pid, progs[kid], bdir, tierc, kid, parts, part) for kid, parts in sorted(PARTS[tier].items()) if kid in progs
+                for part in range(parts)]
         # biggest traces first (multi-operand kernels), so that the pool drains evenly
         jobs.sort(key=lambda j: (j[4] not in (1, 2), j[4] not in (3, 4)))
         with cf.ThreadPoolExecutor(vlib.NCPU) as ex:
@@ -148,6 +166,7 @@ def run(pid, tier):
                     "one operand and, for multiply-accumulate, constant # 0",
             "groups": sum(r["groups"] for r in results),
             "per_kernel": per_kernel,
+            "kernels_absent_in_this_tree": absent,
             "trace_bytes": sum(r["bytes"] for r in results),
             "tlc_processes": len(results),
             "case_space": "Kernels.tla GroupSet/AlSeq, tier %s: sizes 0..%d, operand counts 0..%d" % (
